@@ -79,6 +79,16 @@ def task_grid(ctx, cfg, lead_shapes=((), (2,)), bilinear=False, analytic=True, u
         prove_close(ctx, 'f.analytic_synthesis',
                     lambda x: (grid.to_nodal(x), jnp.einsum('ijml,ml->ij', Y, x)), [xm], sp4,
                     select=[sel], config=conf)
+  if bilinear and not used:
+    # (h) storage dtype: integer-valued fields held in int64 / int32 arrays (masks, counts, indices) are transformed like their real values
+    for dt in ('int64', 'int32'):
+      sp6 = Space(bits=14)
+      zi = harness.with_dtype(sp6, PolyArr.variables(sp6, 'zi', ns, lo=-4.0, hi=4.0), dt)
+      xi = harness.with_dtype(sp6, PolyArr.variables(sp6, 'xi', ms, lo=-4.0, hi=4.0, free=grid.mask), dt)
+      prove_close(ctx, 'h.integer_stored_fields_transform_like_their_values',
+                  lambda z, x: ((grid.to_modal(z), grid.integrate(z), grid.to_nodal(x)),
+                                (grid.to_modal(z.astype(jnp.float64)), grid.integrate(z.astype(jnp.float64)), grid.to_nodal(x.astype(jnp.float64)))),
+                  [zi, xi], sp6, config=dict(grid=name, data_dtype=dt), scale_floor=1.0)
   if bilinear:
     # (e) discrete orthonormality as a bilinear form (degree-2 polynomial identity)
     sp5 = Space(bits=10)
